@@ -1591,6 +1591,44 @@ impl tera::Function<String> for FnSafeId {
     }
 }
 
+/// values that reach the context THROUGH SERDE (`Context::insert` of derive(Serialize) types): enum
+/// variants of every shape whose (renamed) names and payloads are hostile, nested
+#[derive(Serialize)]
+enum SerdeEnum {
+    #[serde(rename = "<b>&\"x'")]
+    Unit,
+    #[serde(rename = "<n>")]
+    Newtype(String),
+    #[serde(rename = "'t\"")]
+    Tuple(char, String),
+    #[serde(rename = "<s>&")]
+    Struct {
+        #[serde(rename = "<f>")]
+        f: String,
+        c: char,
+        inner: Box<Option<SerdeEnum>>,
+    },
+    PlainUnit,
+}
+
+#[derive(Serialize)]
+struct SerdeUnitStruct;
+
+#[derive(Serialize)]
+struct SerdeNewtype(String);
+
+#[derive(Serialize)]
+struct SerdeOuter {
+    e: SerdeEnum,
+    es: Vec<SerdeEnum>,
+    o: Option<SerdeEnum>,
+    n: SerdeNewtype,
+    u: SerdeUnitStruct,
+    unit: (),
+    t: (char, String),
+    m: BTreeMap<String, SerdeEnum>,
+}
+
 #[derive(Serialize)]
 struct SerdeCarrier {
     c: char,
@@ -1779,6 +1817,182 @@ fn value_stream(report: &mut Report) -> Option<(String, serde_json::Value)> {
             }
         }
     }
+    // ---- values through serde: every enum-variant shape, renamed with special characters
+    {
+        let mk = |txt: &str| SerdeOuter {
+            e: SerdeEnum::Unit,
+            es: vec![SerdeEnum::Unit, SerdeEnum::Newtype(txt.into()), SerdeEnum::Tuple('<', txt.into()), SerdeEnum::PlainUnit],
+            o: Some(SerdeEnum::Struct { f: txt.into(), c: '\'', inner: Box::new(Some(SerdeEnum::Unit)) }),
+            n: SerdeNewtype(txt.into()),
+            u: SerdeUnitStruct,
+            unit: (),
+            t: ('"', txt.into()),
+            m: [("<k>".to_string(), SerdeEnum::Unit), ("k2".to_string(), SerdeEnum::Newtype(txt.into()))].into_iter().collect(),
+        };
+        let serde_tpls = [
+            "{{ v.e }}",
+            "{{ v.e | default(value=1) }}",
+            "{% for x in v.es %}{{ x }};{% endfor %}",
+            "{{ v.es | first }}|{{ v.es[0] }}|{{ v.es | join(sep=\",\") }}",
+            "{{ v.o }}",
+            "{% for k, x in v.o %}{{ k }}={{ x }};{% endfor %}",
+            "{{ v.n }}|{{ v.u }}|{{ v.unit }}|{{ v.t }}|{{ v.t[0] }}|{{ v.t[1] }}",
+            "{{ v.m }}|{% for k, x in v.m %}{{ k }}={{ x }};{% endfor %}",
+            "{{ v }}",
+            "{% set y = v.e %}{% for x in [y] %}{{ <pass a={x}/> }}{% endfor %}|{% set c %}{{ v.e }}{% endset %}{{ c }}",
+            "{{ e }}|{{ e ~ \"\" }}|{{ [e] }}",
+        ];
+        for txt in ["<>&\"'", "plain", "x>y"] {
+            let outer = mk(txt);
+            let mut ctx = Context::new();
+            ctx.insert("v", &outer);
+            ctx.insert("e", &SerdeEnum::Unit);
+            for t in serde_tpls {
+                report.evaluations += 1;
+                report.oracle_checks += 1;
+                match tera.render_str(t, &ctx, true) {
+                    Ok(out) => {
+                        if let Some(c) = has_special(&out) {
+                            report.oracle_failures += 1;
+                            if first.is_none() {
+                                first = Some((format!("value stream (serde): `{t}` over a context inserted through Serialize (enum variants renamed with special characters) prints `{c}`: {out:?}"), serde_json::json!({"value_stream": "serde", "template": t})));
+                            }
+                        }
+                    }
+                    Err(_) => report.count("values.serde-render-error"),
+                }
+            }
+            // the unit variant is its (renamed) name, as data: escaped once
+            check("serde unit enum variant (Context::insert)", tera.render_str("{{ e }}", &ctx, true), reference_escape("<b>&\"x'"), txt, report, &mut first);
+            check("serde unit enum variant via Value::from_serializable", {
+                let mut c2 = Context::new();
+                c2.insert_value("v", Value::from_serializable(&SerdeEnum::Unit));
+                tera.render("path.html", &c2)
+            }, reference_escape("<b>&\"x'"), txt, report, &mut first);
+        }
+    }
+
+    // ---- defaults of component parameters are data: escaped exactly like the same literal passed explicitly
+    {
+        let dflt = " <&> \"'";
+        let lit = quote(dflt);
+        let defs = format!(
+            "{{% component C(sep={lit}) %}}[{{{{ sep }}}}|{{{{ sep | default(value=1) }}}}]{{% endcomponent C %}}{{% component CB(sep={lit}, n=1) %}}[{{{{ sep }}}}|{{{{ body }}}}]{{% endcomponent CB %}}{{% component CT(sep: string = {lit}) %}}[{{{{ sep }}}}]{{% endcomponent CT %}}{{% component CC(xs=[{lit}, \"'b'\"], m={{\"k\": {lit}}}) %}}[{{{{ xs | first }}}}|{{{{ xs[1] }}}}|{{{{ m.k }}}}|{{{{ xs }}}}]{{% endcomponent CC %}}{{% component CN(sep={lit}) %}}{{{{ <C sep={{sep}}/> }}}}{{{{ <C/> }}}}{{% endcomponent CN %}}"
+        );
+        let e = reference_escape(dflt);
+        let arr_e = reference_escape(&format!("[{:?}, {:?}]", dflt, "'b'"));
+        let calls: Vec<(&str, String, String, String)> = vec![
+            // (what, call omitting the argument, call passing the same literal, expected text)
+            ("inline call", "{{ <C/> }}".into(), format!("{{{{ <C sep={lit}/> }}}}"), format!("[{e}|{e}]")),
+            ("call with body", "{% <CB> %}x{% </CB> %}".into(), format!("{{% <CB sep={lit}> %}}x{{% </CB> %}}"), format!("[{e}|x]")),
+            ("typed parameter", "{{ <CT/> }}".into(), format!("{{{{ <CT sep={lit}/> }}}}"), format!("[{e}]")),
+            ("array / map defaults", "{{ <CC/> }}".into(), format!("{{{{ <CC xs={{[{lit}, \"'b'\"]}} m={{ {{\"k\": {lit}}} }}/> }}}}"), format!("[{e}|{}|{e}|{arr_e}]", reference_escape("'b'"))),
+            ("default handed on to a nested call", "{{ <CN/> }}".into(), format!("{{{{ <CN sep={lit}/> }}}}"), format!("[{e}|{e}][{e}|{e}]")),
+            ("default kept in a variable, looped, captured", "{% set r = <C/> %}{% for x in [r] %}{{ x }}{% endfor %}".into(), format!("{{% set r = <C sep={lit}/> %}}{{% for x in [r] %}}{{{{ x }}}}{{% endfor %}}"), format!("[{e}|{e}]")),
+        ];
+        let mut t2 = Tera::default();
+        let mut list: Vec<(String, String)> = vec![("cdefs.html".into(), defs)];
+        for (k, (_, omit, explicit, _)) in calls.iter().enumerate() {
+            list.push((format!("omit{k}.html"), omit.clone()));
+            list.push((format!("expl{k}.html"), explicit.clone()));
+        }
+        match t2.add_raw_templates(list) {
+            Err(e) => {
+                if first.is_none() {
+                    first = Some((format!("component defaults: templates do not register: {e:?}"), serde_json::json!({"value_stream": "defaults"})));
+                }
+            }
+            Ok(()) => {
+                for (k, (what, omit, _, want)) in calls.iter().enumerate() {
+                    report.evaluations += 1;
+                    let a = t2.render(&format!("omit{k}.html"), &Context::new()).unwrap_or_else(|e| format!("error {e:?}"));
+                    let b = t2.render(&format!("expl{k}.html"), &Context::new()).unwrap_or_else(|e| format!("error {e:?}"));
+                    report.oracle_checks += 2;
+                    if a != b || a != *want {
+                        report.oracle_failures += 1;
+                        if first.is_none() {
+                            first = Some((format!("component default is data ({what}): `{omit}` (argument omitted, default {lit}) renders {a:?}, the same literal passed explicitly renders {b:?}, escaped once is {want:?}"), serde_json::json!({"value_stream": "defaults", "call": omit})));
+                        }
+                    }
+                }
+                // the API: omitted vs supplied
+                let mut sup = Context::new();
+                sup.insert("sep", dflt);
+                for (name, body) in [("C", None), ("CB", Some("x")), ("CT", None)] {
+                    report.oracle_checks += 1;
+                    let a = t2.render_component(name, &Context::new(), body, true).unwrap_or_else(|e| format!("error {e:?}"));
+                    let b = t2.render_component(name, &sup, body, true).unwrap_or_else(|e| format!("error {e:?}"));
+                    if a != b || has_special(&a.replace('x', "")).is_some() {
+                        report.oracle_failures += 1;
+                        if first.is_none() {
+                            first = Some((format!("component default is data (render_component(\"{name}\", .., autoescape = true)): argument omitted renders {a:?}, supplied renders {b:?}"), serde_json::json!({"value_stream": "defaults", "call": name})));
+                        }
+                    }
+                }
+            }
+        }
+    }
+
+    // ---- templates loaded from files: the autoescape decision goes by the registered NAME
+    {
+        let dir = std::env::temp_dir().join(format!("tera_verif_c01_{}", std::process::id()));
+        let _ = std::fs::create_dir_all(&dir);
+        let src = "[{{ d }}|{{ d ~ \"\" }}|{% set c %}{{ d }}{% endset %}{{ c }}]";
+        let mut ctx = Context::new();
+        ctx.insert("d", "<>&\"'");
+        let files = ["f_page.tera", "f_page.html", "f_page.txt", "f_noext", "f_page.html.bak"];
+        for f in files {
+            let _ = std::fs::write(dir.join(f), src);
+        }
+        let names: [Option<&str>; 6] = [Some("page.html"), Some("page.txt"), Some("page"), Some("x.htm"), Some("dir/page.xml"), None];
+        for suffixes in [None, Some(vec![".tera".to_string()]), Some(vec![".txt".to_string(), ".bak".to_string()])] {
+            for f in files {
+                for name in names {
+                    let path = dir.join(f);
+                    let reg = name.map(|n| n.to_string()).unwrap_or_else(|| path.to_string_lossy().to_string());
+                    for after in [false, true] {
+                        let run = |from_file: bool| -> String {
+                            let mut t = Tera::default();
+                            if !after {
+                                if let Some(s) = &suffixes {
+                                    t.autoescape_on(s.clone());
+                                }
+                            }
+                            let r = if from_file { t.add_template_file(&path, name) } else { t.add_raw_template(&reg, src) };
+                            if let Err(e) = r {
+                                return format!("adderr {e:?}");
+                            }
+                            if after {
+                                if let Some(s) = &suffixes {
+                                    t.autoescape_on(s.clone());
+                                }
+                            }
+                            t.render(&reg, &ctx).unwrap_or_else(|e| format!("error {e:?}"))
+                        };
+                        report.evaluations += 1;
+                        report.oracle_checks += 2;
+                        let from_file = run(true);
+                        let raw = run(false);
+                        let list = suffixes.clone().unwrap_or_else(default_suffixes);
+                        let on = flag_of(&reg, &list);
+                        let e = if on { reference_escape("<>&\"'") } else { "<>&\"'".to_string() };
+                        let want = format!("[{e}|{e}|{e}]");
+                        if from_file != raw || from_file != want {
+                            report.oracle_failures += 1;
+                            if first.is_none() {
+                                first = Some((
+                                    format!("file-loaded template: file `{f}` registered as `{reg}` (suffix list {list:?}, autoescape_on {} adding) renders {from_file:?}; the same source added with add_raw_template under that name renders {raw:?}; by the name's suffix it must be {want:?}", if after { "after" } else { "before" }),
+                                    serde_json::json!({"value_stream": "files", "file": f, "name": name}),
+                                ));
+                            }
+                        }
+                    }
+                }
+            }
+        }
+        let _ = std::fs::remove_dir_all(&dir);
+    }
+
     report.count_n("values.texts", texts.len() as u64);
     first
 }
